@@ -134,11 +134,7 @@ type Env struct {
 }
 
 func newEnv(r *Run, n int) *Env {
-	dir := os.Getenv("QEDSIM_SCRATCH")
-	if dir == "" {
-		dir = "/dev/shm"
-	}
-	base, err := os.MkdirTemp(dir, "qedsim-env-")
+	base, err := os.MkdirTemp(scratchBase(), "qedsim-env-")
 	if err != nil {
 		r.Bug("mkdtemp: %v", err)
 	}
@@ -196,6 +192,7 @@ func (e *Env) startNode(nd *simNode) {
 	if nd.up {
 		return
 	}
+	trimMemory()
 	raw, err := rocks.NewRocksDBStore(nd.dbDir, 0)
 	if err != nil {
 		e.r.Fail("node-open", "node %s: cannot open its store: %v", nd.name, err)
